@@ -1,63 +1,68 @@
 import MesaModel.Proofs.Devs
 /-!
-At-least-once: a scheduled event whose tag no command ever cancels or drops stays *served* — waiting on the list (neither
-cancelled nor dead) or executed at exactly the time it was scheduled for — through every further history.
+At-least-once: a scheduled event (tag `k`, callable object `c`) that no command ever cancels and whose callable no command
+ever drops stays *served* — waiting on the list (neither cancelled nor dead) or executed at exactly the time it was scheduled
+for — through every further history.  Events that share the callable `c` are otherwise independent: cancelling THEM is allowed.
 -/
 namespace Mesa.Devs
 
-/-- the user event with tag `k` and time `t` is waiting (neither cancelled nor dead) or has been executed with the clock at `t` -/
-def Served (k : Nat) (t : Int) (s : Sim) : Prop :=
-  (∃ e ∈ s.pending, e.isStep = false ∧ e.tag = k ∧ e.time = t ∧ e.cancelled = false ∧ e.dead = false) ∨
-  (∃ i, LogEntry.user i k t ∈ s.log)
+/-- the user event with tag `k`, callable `c`, event id `i` and time `t` is waiting (neither cancelled nor dead) or has been
+    executed — that very event, `LogEntry.user i k t` — with the clock at `t` -/
+def Served (k c i : Nat) (t : Int) (s : Sim) : Prop :=
+  (∃ e ∈ s.pending, e.isStep = false ∧ e.tag = k ∧ e.fn = c ∧ e.id = i ∧ e.time = t ∧ e.cancelled = false ∧ e.dead = false) ∨
+  LogEntry.user i k t ∈ s.log
 
-/-- no command of the list cancels or drops tag `k` -/
-def Spares (k : Nat) (cs : List Cmd) : Prop := Cmd.cancel k ∉ cs ∧ Cmd.drop k ∉ cs
+/-- no command of the list cancels the event with tag `k` or drops the callable `c` -/
+def Spares (k c : Nat) (cs : List Cmd) : Prop := Cmd.cancel k ∉ cs ∧ Cmd.drop c ∉ cs
 
-/-- none of the callables (event programs, the step body) names tag `k` in a cancel / drop -/
-def ProgsSpare (k : Nat) (s : Sim) : Prop := (∀ a, Spares k (s.prog a)) ∧ Spares k s.stepProg
+/-- none of the callables (event programs, the step body) cancels tag `k` or drops callable `c`.  The condition is syntactic and
+    ranges over ALL programs of the table, also those no event ever runs: it is sufficient for the event to be spared, not
+    necessary (a program that names `k` but is never scheduled, or whose `cancel k` comes after a `raise`, would be harmless). -/
+def ProgsSpare (k c : Nat) (s : Sim) : Prop := (∀ a, Spares k c (s.prog a)) ∧ Spares k c s.stepProg
 
-theorem served_mono {k : Nat} {t : Int} {s s' : Sim} (h : Served k t s)
-    (hp : ∀ e ∈ s.pending, e.isStep = false → e.tag = k → e.cancelled = false → e.dead = false → e ∈ s'.pending)
-    (hl : ∀ x ∈ s.log, x ∈ s'.log) : Served k t s' := by
-  rcases h with ⟨e, he, h1, h2, h3, h4, h5⟩ | ⟨i, hi⟩
-  · exact Or.inl ⟨e, hp e he h1 h2 h4 h5, h1, h2, h3, h4, h5⟩
-  · exact Or.inr ⟨i, hl _ hi⟩
+theorem served_mono {k c i : Nat} {t : Int} {s s' : Sim} (h : Served k c i t s)
+    (hp : ∀ e ∈ s.pending, e.isStep = false → e.tag = k → e.fn = c → e.cancelled = false → e.dead = false → e ∈ s'.pending)
+    (hl : ∀ x ∈ s.log, x ∈ s'.log) : Served k c i t s' := by
+  rcases h with ⟨e, he, h1, h2, hc, hid, h3, h4, h5⟩ | hi
+  · exact Or.inl ⟨e, hp e he h1 h2 hc h4 h5, h1, h2, hc, hid, h3, h4, h5⟩
+  · exact Or.inr (hl _ hi)
 
-theorem pushUser_served {k : Nat} {t : Int} {s : Sim} (h : Served k t s) (t' : Int) (p a : Nat) :
-    Served k t (pushUser s t' p a) :=
-  served_mono h (fun _ he _ _ _ _ => mem_insert.mpr (Or.inr he)) (fun _ hx => hx)
+theorem pushUser_served {k c i : Nat} {t : Int} {s : Sim} (h : Served k c i t s) (t' : Int) (p a : Nat)
+    (c' : Option Nat := none) : Served k c i t (pushUser s t' p a c') :=
+  served_mono h (fun _ he _ _ _ _ _ => mem_insert.mpr (Or.inr he)) (fun _ hx => hx)
 
-theorem pushStep_served {k : Nat} {t : Int} {s : Sim} (h : Served k t s) : Served k t (pushStep s) :=
-  served_mono h (fun _ he _ _ _ _ => mem_insert.mpr (Or.inr he)) (fun _ hx => hx)
+theorem pushStep_served {k c i : Nat} {t : Int} {s : Sim} (h : Served k c i t s) : Served k c i t (pushStep s) :=
+  served_mono h (fun _ he _ _ _ _ _ => mem_insert.mpr (Or.inr he)) (fun _ hx => hx)
 
-theorem rearm_served {k : Nat} {t : Int} {s : Sim} (h : Served k t s) : Served k t (rearm s) := by
+theorem rearm_served {k c i : Nat} {t : Int} {s : Sim} (h : Served k c i t s) : Served k c i t (rearm s) := by
   unfold rearm; split
   · exact pushStep_served h
   · exact h
 
-theorem cancelTag_served {k k' : Nat} {t : Int} {s : Sim} (h : Served k t s) (hk : k' ≠ k) :
-    Served k t (cancelTag s k') := by
+theorem cancelTag_served {k c i k' : Nat} {t : Int} {s : Sim} (h : Served k c i t s) (hk : k' ≠ k) :
+    Served k c i t (cancelTag s k') := by
   apply served_mono h
-  · intro e he h1 h2 _ _
+  · intro e he h1 h2 _ _ _
     refine List.mem_map.mpr ⟨e, he, ?_⟩
     have : (e.tag == k') = false := by simp [h2, Ne.symm hk]
     simp [this]
   · exact fun _ hx => hx
 
-theorem dropTag_served {k k' : Nat} {t : Int} {s : Sim} (h : Served k t s) (hk : k' ≠ k) :
-    Served k t (dropTag s k') := by
+/-- dropping ANOTHER callable does not touch the event -/
+theorem dropFn_served {k c i k' : Nat} {t : Int} {s : Sim} (h : Served k c i t s) (hk : k' ≠ c) :
+    Served k c i t (dropFn s k') := by
   apply served_mono h
-  · intro e he h1 h2 _ _
+  · intro e he h1 _ h2 _ _
     refine List.mem_map.mpr ⟨e, he, ?_⟩
-    have : (e.tag == k') = false := by simp [h2, Ne.symm hk]
+    have : (e.fn == k') = false := by simp [h2, Ne.symm hk]
     simp [this]
   · exact fun _ hx => hx
 
-theorem doCmd_served {k : Nat} {t : Int} {s : Sim} (h : Served k t s) (c : Cmd)
-    (h1 : c ≠ .cancel k) (h2 : c ≠ .drop k) : Served k t (doCmd s c) := by
-  cases c with
+theorem doCmd1_served {k c i : Nat} {t : Int} {s : Sim} (h : Served k c i t s) (cm : Cmd)
+    (h1 : cm ≠ .cancel k) (h2 : cm ≠ .drop c) : Served k c i t (doCmd1 s cm) := by
+  cases cm with
   | schedAbs t' p a =>
-    simp only [doCmd, schedAbs]
+    simp only [doCmd1, schedAbs]
     split
     · rename_i s' hs
       split at hs
@@ -67,7 +72,7 @@ theorem doCmd_served {k : Nat} {t : Int} {s : Sim} (h : Served k t s) (c : Cmd)
         · simp only [Except.ok.injEq] at hs; subst hs; exact pushUser_served h _ _ _
     · exact h
   | schedRel d p a =>
-    simp only [doCmd, schedRel]
+    simp only [doCmd1, schedRel]
     split
     · rename_i s' hs
       split at hs
@@ -76,18 +81,29 @@ theorem doCmd_served {k : Nat} {t : Int} {s : Sim} (h : Served k t s) (c : Cmd)
         · simp at hs
         · simp only [Except.ok.injEq] at hs; subst hs; exact pushUser_served h _ _ _
     · exact h
+  | again k' d p =>
+    rcases doCmd1_again_cases s k' d p with he | ⟨a, _, _, he⟩ <;> rw [he]
+    · exact h
+    · exact pushUser_served h _ _ _ _
   | cancel k' => exact cancelTag_served h (fun hk => h1 (by rw [hk]))
-  | drop k' => exact dropTag_served h (fun hk => h2 (by rw [hk]))
+  | drop k' => exact dropFn_served h (fun hk => h2 (by rw [hk]))
   | halt => exact h
+  | raise x => exact h
 
-theorem foldl_doCmd_served {k : Nat} {t : Int} {s : Sim} (h : Served k t s) (cs : List Cmd) (hs : Spares k cs) :
-    Served k t (cs.foldl doCmd s) := by
+theorem doCmd_served {k c i : Nat} {t : Int} {s : Sim} (h : Served k c i t s) (cm : Cmd)
+    (h1 : cm ≠ .cancel k) (h2 : cm ≠ .drop c) : Served k c i t (doCmd s cm) := by
+  unfold doCmd; split
+  · exact h
+  · exact doCmd1_served h cm h1 h2
+
+theorem foldl_doCmd_served {k c i : Nat} {t : Int} {s : Sim} (h : Served k c i t s) (cs : List Cmd) (hs : Spares k c cs) :
+    Served k c i t (cs.foldl doCmd s) := by
   induction cs generalizing s with
   | nil => exact h
-  | cons c cs ih =>
-    have hc1 : c ≠ .cancel k := fun hc => hs.1 (hc ▸ List.mem_cons_self ..)
-    have hc2 : c ≠ .drop k := fun hc => hs.2 (hc ▸ List.mem_cons_self ..)
-    exact ih (doCmd_served h c hc1 hc2)
+  | cons cm cs ih =>
+    have hc1 : cm ≠ .cancel k := fun hc => hs.1 (hc ▸ List.mem_cons_self ..)
+    have hc2 : cm ≠ .drop c := fun hc => hs.2 (hc ▸ List.mem_cons_self ..)
+    exact ih (doCmd_served h cm hc1 hc2)
       ⟨fun hm => hs.1 (List.mem_cons_of_mem _ hm), fun hm => hs.2 (List.mem_cons_of_mem _ hm)⟩
 
 /-! the programs never change -/
@@ -103,14 +119,14 @@ theorem exec_progs (s : Sim) (e : Ev) : (exec s e).prog = s.prog ∧ (exec s e).
     · have h := foldl_doCmd_frame { s with log := s.log ++ [.user e.id e.tag s.now] } (s.prog e.act)
       exact ⟨by rw [h.2.2.2.2.1], by rw [h.2.2.2.2.2.1]⟩
 
-theorem exec_progsSpare {k : Nat} {s : Sim} (h : ProgsSpare k s) (e : Ev) : ProgsSpare k (exec s e) := by
+theorem exec_progsSpare {k c : Nat} {s : Sim} (h : ProgsSpare k c s) (e : Ev) : ProgsSpare k c (exec s e) := by
   obtain ⟨h1, h2⟩ := exec_progs s e
   unfold ProgsSpare
   rw [h1, h2]
   exact h
 
-theorem runUntil_progsSpare {k f : Nat} {s s' : Sim} {T : Int} (h : ProgsSpare k s)
-    (hr : runUntil f s T = some s') : ProgsSpare k s' := by
+theorem runUntil_progsSpare {k c f : Nat} {s s' : Sim} {T : Int} (h : ProgsSpare k c s)
+    (hr : runUntil f s T = some s') : ProgsSpare k c s' := by
   induction f generalizing s with
   | zero => simp [runUntil] at hr
   | succ f ih =>
@@ -119,60 +135,62 @@ theorem runUntil_progsSpare {k f : Nat} {s s' : Sim} {T : Int} (h : ProgsSpare k
     · simp only [Option.some.injEq] at hr; subst hr; exact h
     · rename_i e rest hp
       split at hr
-      · exact ih (exec_progsSpare (k := k) (s := popped s e rest) h e) hr
+      · split at hr
+        · simp only [Option.some.injEq] at hr; subst hr; exact exec_progsSpare (k := k) (c := c) (s := popped s e rest) h e
+        · exact ih (exec_progsSpare (k := k) (c := c) (s := popped s e rest) h e) hr
       · simp only [Option.some.injEq] at hr; subst hr; exact h
 
-theorem runNext_progsSpare {k : Nat} {s : Sim} (h : ProgsSpare k s) : ProgsSpare k (runNext s) := by
+theorem runNext_progsSpare {k c : Nat} {s : Sim} (h : ProgsSpare k c s) : ProgsSpare k c (runNext s) := by
   unfold runNext
   split
   · exact h
   · rename_i e rest hp
-    exact exec_progsSpare (k := k) (s := popped s e rest) h e
+    exact exec_progsSpare (k := k) (c := c) (s := popped s e rest) h e
 
-theorem doCmd_progsSpare {k : Nat} {s : Sim} (h : ProgsSpare k s) (c : Cmd) : ProgsSpare k (doCmd s c) := by
-  have hf := doCmd_frame s c
+theorem doCmd_progsSpare {k c : Nat} {s : Sim} (h : ProgsSpare k c s) (cm : Cmd) : ProgsSpare k c (doCmd s cm) := by
+  have hf := doCmd_frame s cm
   unfold ProgsSpare
   rw [hf.2.2.2.2.1, hf.2.2.2.2.2.1]
   exact h
 
 /-! one pop-and-execute step -/
 
-theorem popExec_served {k : Nat} {t : Int} {s : Sim} (h : Served k t s) (hps : ProgsSpare k s) {e₀ : Ev} {rest : List Ev}
-    (hp : popLive s.pending = some (e₀, rest)) : Served k t (exec (popped s e₀ rest) e₀) := by
+theorem popExec_served {k c i : Nat} {t : Int} {s : Sim} (h : Served k c i t s) (hps : ProgsSpare k c s) {e₀ : Ev} {rest : List Ev}
+    (hp : popLive s.pending = some (e₀, rest)) : Served k c i t (exec (popped s e₀ rest) e₀) := by
   obtain ⟨hd, hl⟩ := popLive_decomp hp
   -- either the event is executed now, or it (or its log entry) is still there after the pop
-  have hcase : (e₀.isStep = false ∧ e₀.tag = k ∧ e₀.time = t ∧ e₀.dead = false) ∨ Served k t (popped s e₀ rest) := by
-    rcases h with ⟨e, he, h1, h2, h3, h4, h5⟩ | ⟨i, hi⟩
+  have hcase : (e₀.isStep = false ∧ e₀.tag = k ∧ e₀.id = i ∧ e₀.time = t ∧ e₀.dead = false) ∨
+      Served k c i t (popped s e₀ rest) := by
+    rcases h with ⟨e, he, h1, h2, hc, hid, h3, h4, h5⟩ | hi
     · rw [hd] at he
       rcases List.mem_append.mp he with he | he
       · have := skipped_cancelled e he
         rw [h4] at this; simp at this
       · rcases List.mem_cons.mp he with rfl | he
-        · exact Or.inl ⟨h1, h2, h3, h5⟩
-        · exact Or.inr (Or.inl ⟨e, he, h1, h2, h3, h4, h5⟩)
-    · exact Or.inr (Or.inr ⟨i, hi⟩)
-  rcases hcase with ⟨h1, h2, h3, h5⟩ | hserved
-  · -- executed now: the log entry carries tag k and the clock e₀.time = t
+        · exact Or.inl ⟨h1, h2, hid, h3, h5⟩
+        · exact Or.inr (Or.inl ⟨e, he, h1, h2, hc, hid, h3, h4, h5⟩)
+    · exact Or.inr (Or.inr hi)
+  rcases hcase with ⟨h1, h2, hid, h3, h5⟩ | hserved
+  · -- executed now: the log entry carries the id, tag k and the clock e₀.time = t
     right
-    refine ⟨e₀.id, ?_⟩
     rw [exec_log]
     apply List.mem_append.mpr
     right
-    simp [entryOf, h5, h1, h2, popped, h3]
+    simp [entryOf, h5, h1, h2, popped, h3, hid]
   · unfold exec
     split
-    · exact served_mono hserved (fun e he _ _ _ _ => he) (fun _ hx => hx)
+    · exact served_mono hserved (fun e he _ _ _ _ _ => he) (fun _ hx => hx)
     · split
       · apply foldl_doCmd_served _ _ hps.2
-        exact served_mono (rearm_served hserved) (fun e he _ _ _ _ => he)
+        exact served_mono (rearm_served hserved) (fun e he _ _ _ _ _ => he)
           (fun x hx => List.mem_append.mpr (Or.inl (by
             have := (rearm_frame (popped s e₀ rest)).2.1
             rw [this] at hx; exact hx)))
       · apply foldl_doCmd_served _ _ (hps.1 _)
-        exact served_mono hserved (fun e he _ _ _ _ => he) (fun x hx => List.mem_append.mpr (Or.inl hx))
+        exact served_mono hserved (fun e he _ _ _ _ _ => he) (fun x hx => List.mem_append.mpr (Or.inl hx))
 
-theorem runUntil_served {k : Nat} {t : Int} {f : Nat} {s s' : Sim} {T : Int} (h : Served k t s) (hps : ProgsSpare k s)
-    (hr : runUntil f s T = some s') : Served k t s' := by
+theorem runUntil_served {k c i : Nat} {t : Int} {f : Nat} {s s' : Sim} {T : Int} (h : Served k c i t s) (hps : ProgsSpare k c s)
+    (hr : runUntil f s T = some s') : Served k c i t s' := by
   induction f generalizing s with
   | zero => simp [runUntil] at hr
   | succ f ih =>
@@ -180,66 +198,72 @@ theorem runUntil_served {k : Nat} {t : Int} {f : Nat} {s s' : Sim} {T : Int} (h 
     split at hr
     · rename_i hp
       simp only [Option.some.injEq] at hr; subst hr
-      rcases h with ⟨e, he, _, _, _, h4, _⟩ | ⟨i, hi⟩
+      rcases h with ⟨e, he, _, _, _, _, _, h4, _⟩ | hi
       · have := popLive_none_all_cancelled hp e he
         rw [h4] at this; simp at this
-      · exact Or.inr ⟨i, hi⟩
+      · exact Or.inr hi
     · rename_i e₀ rest hp
       split at hr
-      · exact ih (popExec_served h hps hp) (exec_progsSpare (s := popped s e₀ rest) hps e₀) hr
+      · split at hr
+        · simp only [Option.some.injEq] at hr; subst hr; exact popExec_served h hps hp
+        · exact ih (popExec_served h hps hp) (exec_progsSpare (s := popped s e₀ rest) hps e₀) hr
       · simp only [Option.some.injEq] at hr; subst hr
         obtain ⟨hd, hl⟩ := popLive_decomp hp
-        rcases h with ⟨e, he, h1, h2, h3, h4, h5⟩ | ⟨i, hi⟩
+        rcases h with ⟨e, he, h1, h2, hc, hid, h3, h4, h5⟩ | hi
         · rw [hd] at he
           rcases List.mem_append.mp he with he | he
           · have := skipped_cancelled e he
             rw [h4] at this; simp at this
-          · refine Or.inl ⟨e, mem_insert.mpr ?_, h1, h2, h3, h4, h5⟩
+          · refine Or.inl ⟨e, mem_insert.mpr ?_, h1, h2, hc, hid, h3, h4, h5⟩
             rcases List.mem_cons.mp he with rfl | he
             · exact Or.inl rfl
             · exact Or.inr he
-        · exact Or.inr ⟨i, hi⟩
+        · exact Or.inr hi
 
-theorem runNext_served {k : Nat} {t : Int} {s : Sim} (h : Served k t s) (hps : ProgsSpare k s) :
-    Served k t (runNext s) := by
+theorem runNext_served {k c i : Nat} {t : Int} {s : Sim} (h : Served k c i t s) (hps : ProgsSpare k c s) :
+    Served k c i t (runNext s) := by
   unfold runNext
   split
   · rename_i hp
-    rcases h with ⟨e, he, _, _, _, h4, _⟩ | ⟨i, hi⟩
+    rcases h with ⟨e, he, _, _, _, _, _, h4, _⟩ | hi
     · have := popLive_none_all_cancelled hp e he
       rw [h4] at this; simp at this
-    · exact Or.inr ⟨i, hi⟩
+    · exact Or.inr hi
   · rename_i e₀ rest hp
     exact popExec_served h hps hp
 
 /-- `s'` is reached from `s` by further operations none of which cancels or drops tag `k` at top level -/
-inductive ReachableSparing (k : Nat) (s : Sim) : Sim → Prop where
-  | refl : ReachableSparing k s s
-  | cmd {s' : Sim} (c : Cmd) : ReachableSparing k s s' → c ≠ .cancel k → c ≠ .drop k → ReachableSparing k s (doCmd s' c)
-  | until {s' s'' : Sim} {f : Nat} {T : Int} : ReachableSparing k s s' → s'.now ≤ T → runUntil f s' T = some s'' →
-      ReachableSparing k s s''
-  | next {s' : Sim} : ReachableSparing k s s' → ReachableSparing k s (runNext s')
+inductive ReachableSparing (k c : Nat) (s : Sim) : Sim → Prop where
+  | refl : ReachableSparing k c s s
+  | cmd {s' : Sim} (cm : Cmd) : ReachableSparing k c s s' → cm ≠ .cancel k → cm ≠ .drop c → ReachableSparing k c s (doCmd s' cm)
+  | until {s' s'' : Sim} {f : Nat} {T : Int} : ReachableSparing k c s s' → s'.now ≤ T → runUntil f s' T = some s'' →
+      ReachableSparing k c s s''
+  | next {s' : Sim} : ReachableSparing k c s s' → ReachableSparing k c s (runNext s')
+  | caught {s' : Sim} : ReachableSparing k c s s' → ReachableSparing k c s (caught s')
 
-theorem reachableSparing_from {k : Nat} {s s' : Sim} (h : ReachableSparing k s s') : ReachableFrom s s' := by
+theorem reachableSparing_from {k c : Nat} {s s' : Sim} (h : ReachableSparing k c s s') : ReachableFrom s s' := by
   induction h with
   | refl => exact .refl
   | cmd c _ _ _ ih => exact .cmd c ih
   | «until» _ hT hr ih => exact .until ih hT hr
   | next _ ih => exact .next ih
+  | caught _ ih => exact .caught ih
 
-theorem served_stays {k : Nat} {t : Int} {s s' : Sim} (h : Served k t s) (hps : ProgsSpare k s)
-    (hr : ReachableSparing k s s') : Served k t s' ∧ ProgsSpare k s' := by
+theorem served_stays {k c i : Nat} {t : Int} {s s' : Sim} (h : Served k c i t s) (hps : ProgsSpare k c s)
+    (hr : ReachableSparing k c s s') : Served k c i t s' ∧ ProgsSpare k c s' := by
   induction hr with
   | refl => exact ⟨h, hps⟩
   | cmd c _ h1 h2 ih => exact ⟨doCmd_served ih.1 c h1 h2, doCmd_progsSpare ih.2 c⟩
   | «until» _ _ hrun ih => exact ⟨runUntil_served ih.1 ih.2 hrun, runUntil_progsSpare ih.2 hrun⟩
   | next _ ih => exact ⟨runNext_served ih.1 ih.2, runNext_progsSpare ih.2⟩
+  | caught _ ih => exact ⟨ih.1, ih.2⟩
 
 /-- a freshly scheduled user event is served -/
-theorem pushUser_serves (s : Sim) (t : Int) (p a : Nat) : Served s.nextTag t (pushUser s t p a) := by
+theorem pushUser_serves (s : Sim) (t : Int) (p a : Nat) (c : Option Nat := none) :
+    Served s.nextTag (c.getD s.nextTag) s.nextId t (pushUser s t p a c) := by
   left
   refine ⟨{ time := t, prio := p, id := s.nextId, tag := s.nextTag, isStep := false, cancelled := false,
-            dead := false, act := a }, ?_, rfl, rfl, rfl, rfl, rfl⟩
+            dead := false, act := a, fn := c.getD s.nextTag }, ?_, rfl, rfl, rfl, rfl, rfl, rfl, rfl⟩
   simp only [pushUser]
   exact mem_insert.mpr (Or.inl rfl)
 
